@@ -16,26 +16,26 @@ import (
 )
 
 // sink is the underlying connection of a shaped connection.
-type sink struct {
+type zzsink struct {
 	got    bytes.Buffer
 	closed bool
 }
 
-func (s *sink) Read(b []byte) (int, error)         { return 0, nil }
-func (s *sink) Write(b []byte) (int, error)        { s.got.Write(b); return len(b), nil }
-func (s *sink) Close() error                       { s.closed = true; return nil }
-func (s *sink) LocalAddr() net.Addr                { return nil }
-func (s *sink) RemoteAddr() net.Addr               { return nil }
-func (s *sink) SetDeadline(t time.Time) error      { return nil }
-func (s *sink) SetReadDeadline(t time.Time) error  { return nil }
-func (s *sink) SetWriteDeadline(t time.Time) error { return nil }
+func (s *zzsink) Read(b []byte) (int, error)         { return 0, nil }
+func (s *zzsink) Write(b []byte) (int, error)        { s.got.Write(b); return len(b), nil }
+func (s *zzsink) Close() error                       { s.closed = true; return nil }
+func (s *zzsink) LocalAddr() net.Addr                { return nil }
+func (s *zzsink) RemoteAddr() net.Addr               { return nil }
+func (s *zzsink) SetDeadline(t time.Time) error      { return nil }
+func (s *zzsink) SetReadDeadline(t time.Time) error  { return nil }
+func (s *zzsink) SetWriteDeadline(t time.Time) error { return nil }
 
 // Engine-side model of (*Bucket).closed: the drain tick (fill := 0) happens
 // whenever a writer would otherwise spin on a full bucket, and may also happen
 // at any earlier check.
 func verifBucketClosed(b *Bucket) bool {
 	full := atomic.LoadInt64(&b.fill) >= atomic.LoadInt64(&b.capacity)
-	if full || (drainAnywhere && atomic.LoadInt64(&b.fill) > 0 && vf.Bool("drain-tick")) {
+	if full || (zzdrainAnywhere && atomic.LoadInt64(&b.fill) > 0 && vf.Bool("drain-tick")) {
 		atomic.StoreInt64(&b.fill, 0)
 	}
 	select {
@@ -46,31 +46,31 @@ func verifBucketClosed(b *Bucket) bool {
 	}
 }
 
-var drainAnywhere bool
+var zzdrainAnywhere bool
 
-var slept []time.Duration
+var zzslept []time.Duration
 
-func verifSleep(d time.Duration) { slept = append(slept, d) }
+func verifSleep(d time.Duration) { zzslept = append(zzslept, d) }
 
-const regex = "example"
+const zzregex = "example"
 
 // setup installs one shape in a fresh listener, accepts a connection and
 // prepares its Context exactly as proxy.go does for a matching response.
-func setup(shape *Shape, rangeStart, headerLen int64) (*Listener, *Conn, *sink) {
+func zzsetup(shape *Shape, rangeStart, headerLen int64) (*Listener, *Conn, *zzsink) {
 	l := NewListener(nil)
 	l.Shapes.Lock()
-	l.Shapes.M[regex] = &urlShape{Shape: shape}
+	l.Shapes.M[zzregex] = &urlShape{Shape: shape}
 	l.Shapes.LastModifiedTime = time.Now()
 	l.Shapes.Unlock()
-	s := &sink{}
+	s := &zzsink{}
 	c := l.GetTrafficShapedConn(s)
-	prepare(c, rangeStart, headerLen)
+	zzprepare(c, rangeStart, headerLen)
 	return l, c, s
 }
 
-func prepare(c *Conn, rangeStart, headerLen int64) {
+func zzprepare(c *Conn, rangeStart, headerLen int64) {
 	c.Context = &Context{
-		Shaping: true, Buckets: c.LocalBuckets[regex], GlobalBucket: c.GlobalBuckets[regex], URLRegex: regex,
+		Shaping: true, Buckets: c.LocalBuckets[zzregex], GlobalBucket: c.GlobalBuckets[zzregex], URLRegex: zzregex,
 		RangeStart: rangeStart, ByteOffset: rangeStart, HeaderLen: headerLen,
 	}
 	c.Context.NextActionInfo = c.GetNextActionFromByte(rangeStart)
@@ -90,15 +90,15 @@ func VerifC18Write() { verifC18Write(false) }
 func VerifC18Global() { verifC18Write(true) }
 
 func verifC18Write(global bool) {
-	slept = nil
-	drainAnywhere = vf.Param("drain-anywhere") == 1
+	zzslept = nil
+	zzdrainAnywhere = vf.Param("drain-anywhere") == 1
 	span := int64(vf.Param("span")) // offsets live in [0, span]
 	off := func(name string) int64 {
 		v := vf.Int64(name)
 		vf.Assume(v >= 0 && v <= span)
 		return v
 	}
-	shape := &Shape{URLRegex: regex}
+	shape := &Shape{URLRegex: zzregex}
 	masks := []int{1, 2, 4, 3, 5, 6, 7}
 	if global {
 		masks = []int{0, 2, 4, 6}
@@ -129,7 +129,7 @@ func verifC18Write(global bool) {
 	}
 	rangeStart := off("range-start")
 	const headerLen = 2
-	_, c, s := setup(shape, rangeStart, headerLen)
+	_, c, s := zzsetup(shape, rangeStart, headerLen)
 	if global {
 		used := vf.Int64("global-budget-used-by-other-connections")
 		vf.Assume(used >= 0 && used < shape.MaxBandwidth)
@@ -196,7 +196,7 @@ func verifC18Write(global bool) {
 	haltHits := hasHalt && haltAt >= rangeStart && haltAt < delivered
 	if haltHits && !(hasClose && closeAt >= rangeStart && closeAt < haltAt) {
 		found := false
-		for _, d := range slept {
+		for _, d := range zzslept {
 			if d >= 7*time.Millisecond {
 				found = true
 			}
@@ -205,25 +205,25 @@ func verifC18Write(global bool) {
 		vf.Reach("halted")
 	}
 	if !hasHalt {
-		for _, d := range slept {
+		for _, d := range zzslept {
 			vf.Assert(d == 0, "no-delay-without-halt-or-latency")
 		}
 	}
 	vf.Reach("done")
 }
 
-type cfgRW struct {
+type zzcfgRW struct {
 	h      http.Header
 	status int
 	body   bytes.Buffer
 }
 
-func (w *cfgRW) Header() http.Header         { return w.h }
-func (w *cfgRW) Write(b []byte) (int, error) { return w.body.Write(b) }
-func (w *cfgRW) WriteHeader(s int)           { w.status = s }
+func (w *zzcfgRW) Header() http.Header         { return w.h }
+func (w *zzcfgRW) Write(b []byte) (int, error) { return w.body.Write(b) }
+func (w *zzcfgRW) WriteHeader(s int)           { w.status = s }
 
-func configure(h *Handler, js string) int {
-	w := &cfgRW{h: http.Header{}, status: 200}
+func zzconfigure(h *Handler, js string) int {
+	w := &zzcfgRW{h: http.Header{}, status: 200}
 	req := &http.Request{Method: "POST", URL: &url.URL{Path: "/shape"}, Header: http.Header{}, Body: ioutil.NopCloser(bytes.NewReader([]byte(js)))}
 	h.ServeHTTP(w, req)
 	return w.status
@@ -238,12 +238,12 @@ func VerifC18Config() {
 	h := NewHandler(l)
 	good := `{"trafficshape": {"default": {"bandwidth": {"up": 1000, "down": 2000}, "latency": 3}, "shapes": [{"url_regex": "example", "max_global_bandwidth": 50,
 	  "throttles": [{"bytes": "0-4", "bandwidth": 10}], "halts": [{"byte": 2, "duration": 5, "count": 1}], "close_connections": [{"byte": 9, "count": 1}]}]}}`
-	vf.Assert(configure(h, good) == 200, "valid-configuration-accepted")
-	old := l.Shapes.M[regex]
+	vf.Assert(zzconfigure(h, good) == 200, "valid-configuration-accepted")
+	old := l.Shapes.M[zzregex]
 	vf.Assert(old != nil, "accepted-shape-installed")
-	s := &sink{}
+	s := &zzsink{}
 	c := l.GetTrafficShapedConn(s) // accepted under the first configuration
-	prepare(c, 0, 0)
+	zzprepare(c, 0, 0)
 	up, down := l.WriteBucket.Capacity(), l.ReadBucket.Capacity()
 	lat, mod := l.Latency(), l.Shapes.LastModifiedTime
 
@@ -266,7 +266,7 @@ func VerifC18Config() {
 		`{"nothing": 1}`,
 	}
 	v := vf.Choice("variant", len(variants))
-	status := configure(h, variants[v])
+	status := zzconfigure(h, variants[v])
 	expectOK := false
 	if v == 0 {
 		// accepted iff both intervals are non-empty, ordered and do not overlap (in either order)
@@ -276,7 +276,7 @@ func VerifC18Config() {
 	}
 	if expectOK {
 		vf.Assert(status == 200, "valid-reconfiguration-accepted")
-		vf.Assert(l.Shapes.M[regex] == nil && l.Shapes.M["other"] != nil, "accepted-configuration-replaces-the-old-one")
+		vf.Assert(l.Shapes.M[zzregex] == nil && l.Shapes.M["other"] != nil, "accepted-configuration-replaces-the-old-one")
 		// postcondition of the validator: throttles sorted, non-overlapping; actions sorted by byte
 		sh := l.Shapes.M["other"].Shape
 		for i := 1; i < len(sh.Throttles); i++ {
@@ -286,14 +286,14 @@ func VerifC18Config() {
 			vf.Assert(sh.Actions[i-1].getByte() <= sh.Actions[i].getByte(), "accepted-actions-sorted")
 		}
 		// the connection accepted earlier no longer matches the new map: it stops shaping
-		vf.Assert(!c.CheckExistenceAndValidity(regex), "old-connection-does-not-see-the-new-configuration")
+		vf.Assert(!c.CheckExistenceAndValidity(zzregex), "old-connection-does-not-see-the-new-configuration")
 		vf.Reach("accepted")
 	} else {
 		vf.Assert(status == 400, "invalid-configuration-rejected")
-		vf.Assert(l.Shapes.M[regex] == old && len(l.Shapes.M) == 1, "rejected-configuration-leaves-shapes")
+		vf.Assert(l.Shapes.M[zzregex] == old && len(l.Shapes.M) == 1, "rejected-configuration-leaves-shapes")
 		vf.Assert(l.WriteBucket.Capacity() == up && l.ReadBucket.Capacity() == down && l.Latency() == lat, "rejected-configuration-leaves-defaults")
 		vf.Assert(l.Shapes.LastModifiedTime.Equal(mod), "rejected-configuration-leaves-modification-time")
-		vf.Assert(c.CheckExistenceAndValidity(regex), "old-connection-keeps-its-view")
+		vf.Assert(c.CheckExistenceAndValidity(zzregex), "old-connection-keeps-its-view")
 		vf.Reach("rejected")
 	}
 	vf.Reach("done")
@@ -304,15 +304,15 @@ func VerifC18Config() {
 // connection must not run the new configuration's actions (nor consume their
 // counts): the rest of its response is delivered whole.
 func VerifC18Reconfigure() {
-	slept = nil
-	drainAnywhere = false
+	zzslept = nil
+	zzdrainAnywhere = false
 	span := int64(vf.Param("span"))
 	closeAt := vf.Int64("close-at")
 	vf.Assume(closeAt >= 0 && closeAt <= span)
-	shape := &Shape{URLRegex: regex, CloseConnections: []*CloseConnection{{Byte: closeAt, Count: 1}}}
+	shape := &Shape{URLRegex: zzregex, CloseConnections: []*CloseConnection{{Byte: closeAt, Count: 1}}}
 	vf.Assert(parseShapes(&Trafficshape{Shapes: []*Shape{shape}}) == nil, "valid-shape-accepted")
 	const headerLen = 2
-	l, c, s := setup(shape, 0, headerLen)
+	l, c, s := zzsetup(shape, 0, headerLen)
 	h := NewHandler(l)
 	bodyLen := vf.Param("body")
 	msg := vf.Bytes("response", headerLen+bodyLen)
@@ -330,17 +330,17 @@ func VerifC18Reconfigure() {
 	reconfigured := vf.Choice("reconfigured-in-between", 2) == 1
 	if reconfigured {
 		js := `{"trafficshape": {"shapes": [{"url_regex": "example", "halts": [{"byte": 0, "duration": 7, "count": 1}], "close_connections": [{"byte": 1, "count": 1}, {"byte": 2, "count": 1}]}]}}`
-		vf.Assert(configure(h, js) == 200, "valid-reconfiguration-accepted")
+		vf.Assert(zzconfigure(h, js) == 200, "valid-reconfiguration-accepted")
 	}
 	n2, err2 := c.Write(msg[k:])
 	got := s.got.Bytes()
 	vf.Assert(bytes.Equal(got, msg[:len(got)]), "delivered-bytes-are-a-prefix-of-what-was-written")
 	if reconfigured {
 		vf.Assert(err2 == nil && n2 == len(msg)-k && len(got) == len(msg), "connection-accepted-before-a-reconfiguration-delivers-its-response-whole")
-		for _, a := range l.Shapes.M[regex].Shape.Actions {
+		for _, a := range l.Shapes.M[zzregex].Shape.Actions {
 			vf.Assert(a.getCount() == 1, "new-action-counts-not-consumed-by-an-earlier-connection")
 		}
-		for _, d := range slept { // (sleeps are recorded in the engine only)
+		for _, d := range zzslept { // (sleeps are recorded in the engine only)
 			vf.Assert(d == 0, "new-halt-does-not-apply-to-an-earlier-connection")
 		}
 		vf.Reach("reconfigured")
@@ -356,10 +356,10 @@ func VerifC18Reconfigure() {
 
 // VerifC18Release: closing a shaped connection releases the buckets created for it.
 func VerifC18Release() {
-	shape := &Shape{URLRegex: regex}
+	shape := &Shape{URLRegex: zzregex}
 	vf.Assert(parseShapes(&Trafficshape{Shapes: []*Shape{shape}}) == nil, "valid-shape-accepted")
-	_, c, s := setup(shape, 0, 0)
-	bs := c.LocalBuckets[regex]
+	_, c, s := zzsetup(shape, 0, 0)
+	bs := c.LocalBuckets[zzregex]
 	vf.Assert(bs != nil, "per-connection-buckets-created")
 	c.Close()
 	vf.Assert(s.closed, "underlying-connection-closed")
